@@ -160,6 +160,10 @@ class Task:
         self.spin_mark = -1.0
         self.spin_n = 0
         self.spun = False
+        self.timeout_at = None       # armed by gevent_shim.Timeout
+        self.timeout_obj = None
+        self.greenlet = False
+        self.sysexit = False
 
     def _body(self):
         sim = self.sim
@@ -182,6 +186,7 @@ class Task:
         except SimKilled:
             status = None
         except SystemExit as e:
+            self.sysexit = True
             code = e.code
             if code is None:
                 status = 0
@@ -453,9 +458,12 @@ class Sim:
         while True:
             if pred():
                 return "ready"
+            if t.timeout_at is not None and t.timeout_at <= self.now + 1e-12:
+                raise t.timeout_obj          # a (simulated) gevent.Timeout armed around this blocking call
             if deadline is not None and deadline <= self.now + 1e-12:
                 return "timeout"
-            t.pred, t.deadline, t.interruptible, t.restartable = pred, deadline, interruptible, restartable
+            eff = deadline if t.timeout_at is None else (t.timeout_at if deadline is None else min(deadline, t.timeout_at))
+            t.pred, t.deadline, t.interruptible, t.restartable = pred, eff, interruptible, restartable
             t.state = "blocked"
             t.woke = None
             self._switch(t)
@@ -468,7 +476,11 @@ class Sim:
                     continue
                 continue
             if woke == "timeout":
-                return "timeout"
+                if t.timeout_at is not None and t.timeout_at <= self.now + 1e-12:
+                    raise t.timeout_obj
+                if deadline is not None and deadline <= self.now + 1e-12:
+                    return "timeout"
+                continue
             if woke == "ready":
                 return "ready"
 
@@ -590,12 +602,20 @@ class Sim:
         p = t.proc
         if p.state != "running":
             return
-        if t.is_main:
+        if t.is_main or (t.greenlet and t.sysexit and status is not None):
             if status is None:
                 return
-            p.exiting = status
+            if p.exiting is None:
+                p.exiting = status
             for fn in p.atexit:
                 fn()
+            if not t.is_main:
+                # SystemExit raised in a greenlet ends the whole process (it propagates to the hub / main greenlet)
+                self._finalize_exit(p, p.exiting)
+                for x in p.tasks:
+                    if x.state != "done" and x is not t:
+                        x.killed = True
+                return
         if p.exiting is not None and all(x.state == "done" or x is t for x in p.tasks):
             self._finalize_exit(p, p.exiting)
 
